@@ -149,7 +149,16 @@ def frame_cases(draw):
     return {"family": "frames", "first": frames, "repeat": draw(st.booleans())}
 
 
-cases = st.one_of(loop_cases(), loop_cases(), loop_cases(), giveup_cases(), frame_cases())
+@st.composite
+def shutdown_cases(draw):
+    # which transmissions of the shutdown exchange are lost: per host up to two of the first copies of the controller's
+    # ExecutorShutdown, of the executor's ExecutorExit, and of either acknowledgement (fair loss: a third copy always gets through)
+    nexec = draw(st.integers(1, 2))
+    return {"family": "shutdown", "nexec": nexec,
+            "drops": [[draw(st.integers(0, 2)) for _ in range(4)] for _ in range(nexec)]}
+
+
+cases = st.one_of(loop_cases(), loop_cases(), loop_cases(), giveup_cases(), frame_cases(), shutdown_cases())
 
 
 # ---------------------------------------------------------------------------------------------------- loop
@@ -429,6 +438,107 @@ def run_giveup(c) -> tuple[bool, list[str]]:
     return True, ["family:giveup"]
 
 
+# ---------------------------------------------------------------------------------------------------- shutdown
+
+def run_shutdown(c) -> tuple[bool, list[str]]:
+    """The controller's last messages are messages too: Bridge.shutdown hands an ExecutorShutdown per host to the acknowledged
+    layer and waits for the executors' ExecutorExit. Under fair loss every executor must get its shutdown exactly once and the
+    bridge must see every exit. The executor side is idealised here (a loop over the real Listener / ReliableSender that keeps
+    retrying until acknowledged); the controller side is the real Bridge.shutdown, run as a lock-step coroutine."""
+    from cascade.executor.msg import ExecutorExit, ExecutorShutdown
+
+    net = fakezmq.Net()
+    net.mode = "held"
+    net.reliable = lambda addr, frames: _framed(frames) is None
+
+    def on_idle(poller, timeout):
+        co = current()
+        if co is None:
+            return
+        co.park()
+
+    with fakezmq.patched(net, modules=[]):
+        old_time = bridge_mod.time
+        bridge_mod.time = net
+        try:
+            execs = [_mk_executor(f"h{i}", 1) for i in range(c["nexec"])]
+            for ex in execs:
+                net.mode = "immediate"
+                ex.to_controller(ex.registration)
+            try:
+                br = bridge_mod.Bridge(CTRL, len(execs))
+            except Exception as e:
+                raise Violation(f"loss-free registration handshake failed: {type(e).__name__}: {e}", "handshake")
+            for ex in execs:  # consume the acks of the registrations
+                for m in ex.mlistener.recv_messages(0):
+                    if isinstance(m, Ack):
+                        ex.sender.ack(m.idx)
+            net.mode = "held"
+            net.on_idle = on_idle
+            got_shutdown = {ex.host: 0 for ex in execs}
+            budget = {ex.host: {"shutdown": c["drops"][i][0], "exit": c["drops"][i][1], "ack_c": c["drops"][i][2], "ack_e": c["drops"][i][3]}
+                      for i, ex in enumerate(execs)}
+            dropped = 0
+            co = Coroutine(br.shutdown, "ctrl-shutdown")
+            co.resume()
+            for _round in range(700):
+                # fates of everything on the wire
+                for m in list(net.inflight):
+                    kind = _framed(m["frames"])
+                    i = net.inflight.index(m)
+                    m0 = serde.des_message(m["frames"][0])
+                    host = None
+                    what = None
+                    if kind == "data":
+                        body = serde.des_message(m["frames"][1])
+                        if isinstance(body, ExecutorShutdown):
+                            host, what = m["dst"].split("//")[1].split(":")[0], "shutdown"
+                        elif isinstance(body, ExecutorExit):
+                            host, what = body.host, "exit"
+                    elif kind == "ack":
+                        if m["dst"] == CTRL:
+                            what = "ack_c"
+                            host = next((e.host for e in execs), None)
+                        else:
+                            host, what = m["dst"].split("//")[1].split(":")[0], "ack_e"
+                    if host in budget and what and budget[host][what] > 0:
+                        budget[host][what] -= 1
+                        dropped += 1
+                        net.drop(i)
+                    else:
+                        net.deliver(i)
+                # the executors' turn
+                for ex in execs:
+                    for m in ex.mlistener.recv_messages(0):
+                        if isinstance(m, Ack):
+                            ex.sender.ack(m.idx)
+                        elif isinstance(m, ExecutorShutdown):
+                            got_shutdown[ex.host] += 1
+                            ex.sender.send("controller", ExecutorExit(ex.host))
+                    try:
+                        ex.sender.maybe_retry()
+                    except ValueError as e:
+                        raise Violation(f"executor {ex.host} gave up under fair loss: {e}", "gave-up-under-fair-loss")
+                net.advance_ms(400)
+                if co.done:
+                    break
+                co.resume()
+            if not co.done:
+                raise Violation("Bridge.shutdown did not return within 280 s of virtual time", "shutdown-never-returns")
+            if co.exc is not None:
+                raise Violation(f"Bridge.shutdown raised {type(co.exc).__name__}: {co.exc}", "shutdown-raises")
+            bad = {h: n for h, n in got_shutdown.items() if n != 1}
+            if bad:
+                raise Violation(f"ExecutorShutdown was handed to the acknowledged layer once per host; delivered {got_shutdown} "
+                                f"(lost copies: {c['drops']}); the executors of {sorted(bad)} keep running", "shutdown-not-exactly-once")
+            if br.sender.hosts:
+                raise Violation(f"Bridge.shutdown returned although {sorted(br.sender.hosts)} never said goodbye (lost copies: {c['drops']})",
+                                "shutdown-missed-exit")
+        finally:
+            bridge_mod.time = old_time
+    return dropped >= 1, ["family:shutdown"] + (["shutdown_frame_lost"] if any(d[0] for d in c["drops"]) else [])
+
+
 # ---------------------------------------------------------------------------------------------------- frames
 
 def _enc(fr):
@@ -500,6 +610,8 @@ def shard(seed, cases_n, tier):
             return run_loop(c, holder)
         if c["family"] == "giveup":
             return run_giveup(c)
+        if c["family"] == "shutdown":
+            return run_shutdown(c)
         return run_frames(c)
 
     common.hyp_run(cases, body, st_, seed, cases_n)
@@ -515,5 +627,7 @@ def replay(case):
         run_loop(c, {})
     elif c["family"] == "giveup":
         run_giveup(c)
+    elif c["family"] == "shutdown":
+        run_shutdown(c)
     else:
         run_frames(c)
